@@ -683,7 +683,7 @@ func equalityClosureSearch(cl *ssa.Call) (*ssa.Function, ssa.Value) {
 	if o == nil {
 		o = g
 	}
-	if pkgPathOf(o) != "slices" || (o.Name() != "ContainsFunc" && o.Name() != "IndexFunc") || len(cl.Call.Args) != 2 {
+	if (pkgPathOf(o) != "slices" || (o.Name() != "ContainsFunc" && o.Name() != "IndexFunc")) && !containsFuncLike(g) || len(cl.Call.Args) != 2 {
 		return nil, nil
 	}
 	var fn *ssa.Function
@@ -916,10 +916,16 @@ func (c *Ctx) rejectionReasons(f *ssa.Function, env Env, boolFalse bool, depth i
 	}
 	var out []string
 	for k := range set {
+		// (`a && b` decided in one tagless switch arm is the φ of b and false: the refusal is on b, behind a)
+		if strings.HasPrefix(k, "phi(") && strings.HasSuffix(k, "|false)=true") {
+			k = k[len("phi("):len(k)-len("|false)=true")] + "=true"
+		} else if strings.HasPrefix(k, "phi(false|") && strings.HasSuffix(k, ")=true") {
+			k = k[len("phi(false|"):len(k)-len(")=true")] + "=true"
+		}
 		out = append(out, k)
 	}
 	sort.Strings(out)
-	return out
+	return uniqStrs(out)
 }
 
 func isConstTrue(v ssa.Value) bool {
@@ -995,6 +1001,37 @@ func (c *Ctx) constSetTests(g *ssa.Function, env Env, isX func(path string) bool
 				}
 				out = append(out, t)
 			case *ssa.Call:
+				// a module predicate handed the value alone (`isAllowed(name) bool`): a test against a constant set when the
+				// predicate itself is one — it answers true exactly on the member edges of its own test of its parameter
+				if cal := x.Call.StaticCallee(); cal != nil && len(x.Call.Args) == 1 && inModule(cal) && cal.Blocks != nil && boolResult(cal) && cal != g && isX(c.Path(x.Call.Args[0], env)) && c.cstDepth < 2 {
+					c.cstDepth++
+					inner := c.constSetTests(cal, nil, func(p string) bool { return p == "$0" })
+					c.cstDepth--
+					if len(inner) == 1 {
+						cut := map[edge]bool{}
+						for _, e := range inner[0].member {
+							cut[e] = true
+						}
+						// true only across a member edge; false nowhere behind one
+						exact := true
+						for b2 := range reach(cal.Blocks[0], cut) {
+							if r, isR := b2.Instrs[len(b2.Instrs)-1].(*ssa.Return); isR && c.Path(r.Results[0], nil) != "false" {
+								exact = false
+							}
+						}
+						for _, e := range inner[0].member {
+							for b2 := range reach(e.to, nil) {
+								if r, isR := b2.Instrs[len(b2.Instrs)-1].(*ssa.Return); isR && c.Path(r.Results[0], nil) != "true" {
+									exact = false
+								}
+							}
+						}
+						if exact {
+							out = append(out, constSetTest{set: inner[0].set, member: boolEdgesT(x, true), pos: x.Pos(), blk: b})
+							continue
+						}
+					}
+				}
 				if cal := x.Call.StaticCallee(); cal != nil && len(x.Call.Args) == 2 {
 					mList, mWanted := memberArgs(x)
 					if !isX(c.Path(mWanted, env)) {
@@ -1208,6 +1245,34 @@ func (c *Ctx) requestSchema(f *ssa.Function, typeSub string) *schemaRef {
 			return &schemaRef{SC: c.Path(al, nil), dec: f, typ: derefT(al.Type())}
 		}
 	}
+	// the request struct made here and filled by an unexported helper that is handed the bytes and the struct (an
+	// out-parameter) and hands them to json.Unmarshal
+	jsonU := c.ExtFn("encoding/json", "Unmarshal")
+	for _, cl := range findCalls(f, func(cl *ssa.Call) bool {
+		g := cl.Call.StaticCallee()
+		a := declArgs(cl)
+		return g != nil && inModule(g) && g.Blocks != nil && g.Object() != nil && !g.Object().Exported() && len(a) == 2 && c.Path(a[0], nil) == "$1"
+	}) {
+		al, ok := declArgs(cl)[1].(*ssa.Alloc)
+		if !ok || !strings.Contains(typeShort(al.Type()), typeSub) {
+			continue
+		}
+		g := cl.Call.StaticCallee()
+		genv := c.calleeEnv(&cl.Call, g, nil)
+		fills := false
+		for _, u := range callsTo(g, jsonU) {
+			tgt := u.Call.Args[1]
+			if mi, isMI := tgt.(*ssa.MakeInterface); isMI {
+				tgt = mi.X
+			}
+			if c.Path(u.Call.Args[0], genv) == "$1" && c.Path(tgt, genv) == c.Path(al, nil) {
+				fills = true
+			}
+		}
+		if fills {
+			return &schemaRef{SC: c.Path(al, nil), dec: f, typ: derefT(al.Type())}
+		}
+	}
 	return nil
 }
 
@@ -1257,4 +1322,71 @@ func (c *Ctx) objHelperCalls(o *builtObj) []objHelper {
 		}
 	}
 	return out
+}
+
+// containsFuncLike: a module function written like slices.ContainsFunc — func(items []T, pred func(T) bool) bool with
+// one loop over items that calls pred on the element, answers true exactly where pred did and false after the loop.
+func containsFuncLike(g *ssa.Function) bool {
+	if g == nil || !inModule(g) || g.Blocks == nil || len(g.Params) != 2 || !boolResult(g) {
+		return false
+	}
+	if _, ok := g.Params[0].Type().Underlying().(*types.Slice); !ok {
+		return false
+	}
+	sig, ok := g.Params[1].Type().Underlying().(*types.Signature)
+	if !ok || sig.Params().Len() != 1 || sig.Results().Len() != 1 || !isBoolType(sig.Results().At(0).Type()) {
+		return false
+	}
+	loops := naturalLoops(g)
+	if len(loops) != 1 {
+		return false
+	}
+	var pc *ssa.Call
+	n := 0
+	forEachInstr(g, func(in ssa.Instruction) {
+		if cl, isC := in.(*ssa.Call); isC {
+			if _, isB := cl.Call.Value.(*ssa.Builtin); isB {
+				return
+			}
+			n++
+			if cl.Call.Value == ssa.Value(g.Params[1]) && loops[0].blocks[cl.Block()] && len(cl.Call.Args) == 1 {
+				// the element of items at the loop's own index
+				switch a := cl.Call.Args[0].(type) {
+				case *ssa.UnOp:
+					if ia, isIA := a.X.(*ssa.IndexAddr); isIA && ia.X == ssa.Value(g.Params[0]) {
+						pc = cl
+					}
+				case *ssa.Index:
+					if a.X == ssa.Value(g.Params[0]) {
+						pc = cl
+					}
+				}
+			}
+		}
+	})
+	if pc == nil || n != 1 {
+		return false
+	}
+	trueTo := map[*ssa.BasicBlock]bool{}
+	for _, e := range boolEdgesT(pc, true) {
+		trueTo[e.to] = true
+	}
+	for _, r := range returnsOf(g) {
+		k, isK := r.Results[0].(*ssa.Const)
+		if !isK || k.Value == nil {
+			return false
+		}
+		if constant.BoolVal(k.Value) {
+			dom := false
+			for b := range trueTo {
+				dom = dom || b.Dominates(r.Block())
+			}
+			if !dom {
+				return false
+			}
+		} else if loops[0].blocks[r.Block()] {
+			return false
+		}
+	}
+	return true
 }
